@@ -283,7 +283,7 @@ func c12r2(r *R) {
 			lr = c.(ssa.Instruction)
 		}
 		okc := mc != nil && lr != nil && instrDominates(mc, lr) && guardedBy(lr.Block(), func(g string) bool {
-			return strings.HasPrefix(g, "(martian.maybeConnectErrorResponse(") && strings.HasSuffix(g, " == nil)")
+			return strings.HasPrefix(g, "!(martian.maybeConnectErrorResponse(") && strings.HasSuffix(g, " != nil)")
 		})
 		r.check(okc, recv+".writeErrorResponse#relay-first", fn.Pos(), "the upstream's own CONNECT rejection is relayed; the local error response is built only otherwise", "an upstream CONNECT rejection is not relayed with the upstream's status")
 	}
